@@ -2748,7 +2748,7 @@ func (r *repoT) GobDecode(b []byte) error {
 
 func (r *repoT) GobEncode() ([]byte, error) {
 	r.RLock()
-	r.RUnlock()
+	defer r.RUnlock()
 
 	var buf bytes.Buffer
 	enc := gob.NewEncoder(&buf)
